@@ -36,7 +36,7 @@ var c11Quick = []c11Space{
 	{"E1", 2, 1, 7, 9}, {"E2", 3, 1, 5, 7}, {"E3", 2, 2, 4, 9}, {"E4", 2, 3, 3, 8},
 }
 var c11Thorough = []c11Space{
-	{"E5", 2, 2, 6, 9}, {"E6", 3, 1, 7, 8}, {"E7", 3, 2, 3, 7},
+	{"E5", 2, 2, 6, 9}, {"E6", 3, 1, 7, 8}, {"E7", 3, 2, 3, 7}, {"E8", 2, 2, 7, 8}, {"E9", 2, 3, 4, 8},
 }
 
 var c11RandBS = []int{1, 2, 3, 7, 64, 1000, 4096, 65536}
@@ -50,7 +50,7 @@ func c11Cases(tier string, seed uint64, flavor string) []lib.Case {
 	}
 	for _, sp := range spaces {
 		shards := 32
-		if tier == "thorough" && (sp.name == "E5" || sp.name == "E6" || sp.name == "E7") {
+		if tier == "thorough" && (sp.name >= "E5") {
 			shards = 128
 		}
 		for sh := 0; sh < shards; sh++ {
@@ -60,7 +60,7 @@ func c11Cases(tier string, seed uint64, flavor string) []lib.Case {
 	}
 	n := 120
 	if tier == "thorough" {
-		n = 1500
+		n = 4000
 	}
 	for i := 0; i < n; i++ {
 		s := c11Spec{Mode: "rand", Seed: lib.Mix(seed, 11, uint64(i)), BS: c11RandBS[i%len(c11RandBS)], Shape: c11Shapes[(i/len(c11RandBS))%len(c11Shapes)]}
@@ -395,7 +395,7 @@ func init() {
 	lib.Register(&lib.Property{
 		ID:          "C11",
 		Level:       "exploration",
-		Rule:        "every execution of the real CreateSignature+ComputeDiff is monitored: recorded operations are replayed by a reference replayer with explicit bounds checks and (every 4th exhaustive / every random case) by the real ApplySingle over an in-memory pool; structural predicates (range inside the named file, merged ranges, data op <= 4 MiB, empty data only leading). Exhaustive sub-spaces, each enumerated completely for block sizes 1..4 and every preferred index: E1 one old file alphabet 2 |old|<=7 |new|<=9; E2 one old alphabet 3 |old|<=5 |new|<=7; E3 two old alphabet 2 |old|<=4 |new|<=9; E4 three old alphabet 2 |old|<=3 |new|<=8 (thorough adds E5 two old a2 |old|<=6 |new|<=9, E6 one old a3 |old|<=7 |new|<=8, E7 two old a3 |old|<=3 |new|<=7). Random large part: block sizes {1,2,3,7,64,1000,4096,65536}, new content > 4 MiB (up to 8 MiB+) in shapes nomatch / phases / wrapmatch / lowentropy / tailprefix / exact4m / fresh-tail. distinct_nontrivial = exhaustive executions whose op list has both a block range and a data op (distinct tuples by construction) + distinct random feature signatures",
+		Rule:        "every execution of the real CreateSignature+ComputeDiff is monitored: recorded operations are replayed by a reference replayer with explicit bounds checks and (every 4th exhaustive / every random case) by the real ApplySingle over an in-memory pool; structural predicates (range inside the named file, merged ranges, data op <= 4 MiB, empty data only leading). Exhaustive sub-spaces, each enumerated completely for block sizes 1..4 and every preferred index: E1 one old file alphabet 2 |old|<=7 |new|<=9; E2 one old alphabet 3 |old|<=5 |new|<=7; E3 two old alphabet 2 |old|<=4 |new|<=9; E4 three old alphabet 2 |old|<=3 |new|<=8 (thorough adds E5 two old a2 |old|<=6 |new|<=9, E6 one old a3 |old|<=7 |new|<=8, E7 two old a3 |old|<=3 |new|<=7, E8 two old a2 |old|<=7 |new|<=8, E9 three old a2 |old|<=4 |new|<=8). Random large part: block sizes {1,2,3,7,64,1000,4096,65536}, new content > 4 MiB (up to 8 MiB+) in shapes nomatch / phases / wrapmatch / lowentropy / tailprefix / exact4m / fresh-tail. distinct_nontrivial = exhaustive executions whose op list has both a block range and a data op (distinct tuples by construction) + distinct random feature signatures",
 		Assumptions: []string{"the property's full small-scope statement (three files of length <= 7 over 3 symbols) is > 10^16 cases and is NOT enumerated; exhaustive=true refers to the listed sub-spaces only"},
 		Cases:       c11Cases,
 		Run:         c11Run,
@@ -403,7 +403,7 @@ func init() {
 		CaseBudget:  900 * 1e9,
 		Exhaustive: func(tier string) (bool, string) {
 			if tier == "thorough" {
-				return true, "sub-spaces E1..E7 as listed in rule, complete; the random large part is sampled"
+				return true, "sub-spaces E1..E9 as listed in rule, complete; the random large part is sampled"
 			}
 			return true, "sub-spaces E1..E4 as listed in rule, complete; the random large part is sampled"
 		},
